@@ -99,6 +99,28 @@ Theorem C13_stale_handler_refuted :
 Proof. exact stale_handler_refuted. Qed.
 Print Assumptions C13_stale_handler_refuted.
 
+(* resume and the random generators: for EVERY regenerated list of seeding calls on the resume path
+   accepted by the checker (none), every history of pool refills and resumes, and every family of
+   pools that are internally distinct and pairwise disjoint (fresh draws), nothing is offered twice -
+   so C01's freshness hypothesis, under which the run theorems hold, survives any number of resumes.
+   A resume path that seeds is refuted: after the second resume the first refill is replayed and
+   C01's model ends with duplicated live points (vm_compute witness).                             *)
+Theorem C13_resume_keeps_draws_fresh : forall (A : Type) (calls : list seedcall) (pool : nat * nat -> list A) (h : list hev),
+  resume_seed_ok calls = true ->
+  (forall k, NoDup (pool k)) ->
+  (forall k k' x, k <> k' -> In x (pool k) -> In x (pool k') -> False) ->
+  NoDup (offered pool (reseeds calls) h).
+Proof. exact @resume_seed_sound. Qed.
+Print Assumptions C13_resume_keeps_draws_fresh.
+
+Theorem C13_reseed_on_resume_refuted :
+  resume_seed_ok [SeedConfigure] = false
+  /\ pools_from true 0 0 rs_history = [(0, 0); (1, 0); (1, 0)]%nat
+  /\ rs_live_after true = [20; 20; 21; 21]%Z /\ nodupb (rs_live_after true) = false
+  /\ nodupb (rs_live_after false) = true.
+Proof. exact reseed_refuted. Qed.
+Print Assumptions C13_reseed_on_resume_refuted.
+
 (* importance sampler: a forced (non-periodic) checkpoint returns before any file operation, so the
    last iteration-boundary checkpoint is left intact - for every statement list whose first
    non-logging statement is the `periodic is False -> return` guard                              *)
